@@ -41,40 +41,42 @@ fn cat(parts: Vec<Vec<Sym>>) -> Vec<Sym> {
 }
 
 struct SpecGrammar {
-    name: &'static str,
-    lark: &'static str,
+    name: String,
+    lark: String,
+    /// generated family: a refused or ambiguous member is skipped, not a machinery error
+    generated: bool,
     bnf: Bnf,
     /// positions where the EOS bit is a don't-care (wildcard token range)
     wildcard: bool,
 }
 
-fn grammars() -> Vec<SpecGrammar> {
+fn hand_grammars() -> Vec<SpecGrammar> {
     let plain = |n: usize| Sym::N(n, PExpr::SelfRef);
     let all_ids: Vec<u32> = (0..18).collect();
     vec![
-        SpecGrammar { name: "named", lark: "start: \"a\" <a> \"b\"", bnf: Bnf { nts: vec![vec![alt(cat(vec![t("a"), vec![tok(&[4])], t("b")]))]] }, wildcard: false },
-        SpecGrammar { name: "range-ordinary-ids", lark: "start: \"a\" <[2-3]> \"b\"", bnf: Bnf { nts: vec![vec![alt(cat(vec![t("a"), vec![tok(&[2, 3])], t("b")]))]] }, wildcard: false },
-        SpecGrammar { name: "list", lark: "start: \"a\" <[4,7]> \"b\"", bnf: Bnf { nts: vec![vec![alt(cat(vec![t("a"), vec![tok(&[4, 7])], t("b")]))]] }, wildcard: false },
-        SpecGrammar { name: "negated", lark: "start: \"a\" <[^0-3,8-17]> \"b\"", bnf: Bnf { nts: vec![vec![alt(cat(vec![t("a"), vec![tok(&[4, 5, 6, 7])], t("b")]))]] }, wildcard: false },
-        SpecGrammar { name: "single-id", lark: "start: \"a\" <[7]> \"b\"", bnf: Bnf { nts: vec![vec![alt(cat(vec![t("a"), vec![tok(&[7])], t("b")]))]] }, wildcard: false },
-        SpecGrammar { name: "wildcard", lark: "start: \"ab\" <[*]> \"c\"", bnf: Bnf { nts: vec![vec![alt(cat(vec![t("ab"), vec![tok(&all_ids)], t("c")]))]] }, wildcard: true },
-        SpecGrammar { name: "spelled-name", lark: "start: \"<a>\" \"b\"", bnf: Bnf { nts: vec![vec![alt(cat(vec![t("<a>"), t("b")]))]] }, wildcard: false },
-        SpecGrammar { name: "spelled-numeric", lark: "start: \"[3]\" \"b\"", bnf: Bnf { nts: vec![vec![alt(cat(vec![t("[3]"), t("b")]))]] }, wildcard: false },
-        SpecGrammar { name: "alt3-named", lark: "start: \"a\" (<a> | <|x|> | <[7]>) \"b\"", bnf: Bnf { nts: vec![vec![alt(cat(vec![t("a"), vec![tok(&[4, 14, 7])], t("b")]))]] }, wildcard: false },
-        SpecGrammar { name: "alt2-named", lark: "start: \"a\" (<a> | <|x|>) \"b\"", bnf: Bnf { nts: vec![vec![alt(cat(vec![t("a"), vec![tok(&[4, 14])], t("b")]))]] }, wildcard: false },
-        SpecGrammar { name: "alt4-named", lark: "start: \"a\" (<a> | <|x|> | <[7]> | <[5]>) \"b\"", bnf: Bnf { nts: vec![vec![alt(cat(vec![t("a"), vec![tok(&[4, 14, 7, 5])], t("b")]))]] }, wildcard: false },
-        SpecGrammar { name: "list-then-single", lark: "start: \"a\" (<[4,7]> | <[14]>) \"b\"", bnf: Bnf { nts: vec![vec![alt(cat(vec![t("a"), vec![tok(&[4, 7, 14])], t("b")]))]] }, wildcard: false },
-        SpecGrammar { name: "single-forced", lark: "start: \"ab\" <|x|> \"ab\"", bnf: Bnf { nts: vec![vec![alt(cat(vec![t("ab"), vec![tok(&[14])], t("ab")]))]] }, wildcard: false },
-        SpecGrammar { name: "alt", lark: "start: <a> | \"a\" <|x|>", bnf: Bnf { nts: vec![vec![alt(vec![tok(&[4])]), alt(cat(vec![t("a"), vec![tok(&[14])]]))]] }, wildcard: false },
+        SpecGrammar { name: "named".into(), generated: false, lark: "start: \"a\" <a> \"b\"".into(), bnf: Bnf { nts: vec![vec![alt(cat(vec![t("a"), vec![tok(&[4])], t("b")]))]] }, wildcard: false },
+        SpecGrammar { name: "range-ordinary-ids".into(), generated: false, lark: "start: \"a\" <[2-3]> \"b\"".into(), bnf: Bnf { nts: vec![vec![alt(cat(vec![t("a"), vec![tok(&[2, 3])], t("b")]))]] }, wildcard: false },
+        SpecGrammar { name: "list".into(), generated: false, lark: "start: \"a\" <[4,7]> \"b\"".into(), bnf: Bnf { nts: vec![vec![alt(cat(vec![t("a"), vec![tok(&[4, 7])], t("b")]))]] }, wildcard: false },
+        SpecGrammar { name: "negated".into(), generated: false, lark: "start: \"a\" <[^0-3,8-17]> \"b\"".into(), bnf: Bnf { nts: vec![vec![alt(cat(vec![t("a"), vec![tok(&[4, 5, 6, 7])], t("b")]))]] }, wildcard: false },
+        SpecGrammar { name: "single-id".into(), generated: false, lark: "start: \"a\" <[7]> \"b\"".into(), bnf: Bnf { nts: vec![vec![alt(cat(vec![t("a"), vec![tok(&[7])], t("b")]))]] }, wildcard: false },
+        SpecGrammar { name: "wildcard".into(), generated: false, lark: "start: \"ab\" <[*]> \"c\"".into(), bnf: Bnf { nts: vec![vec![alt(cat(vec![t("ab"), vec![tok(&all_ids)], t("c")]))]] }, wildcard: true },
+        SpecGrammar { name: "spelled-name".into(), generated: false, lark: "start: \"<a>\" \"b\"".into(), bnf: Bnf { nts: vec![vec![alt(cat(vec![t("<a>"), t("b")]))]] }, wildcard: false },
+        SpecGrammar { name: "spelled-numeric".into(), generated: false, lark: "start: \"[3]\" \"b\"".into(), bnf: Bnf { nts: vec![vec![alt(cat(vec![t("[3]"), t("b")]))]] }, wildcard: false },
+        SpecGrammar { name: "alt3-named".into(), generated: false, lark: "start: \"a\" (<a> | <|x|> | <[7]>) \"b\"".into(), bnf: Bnf { nts: vec![vec![alt(cat(vec![t("a"), vec![tok(&[4, 14, 7])], t("b")]))]] }, wildcard: false },
+        SpecGrammar { name: "alt2-named".into(), generated: false, lark: "start: \"a\" (<a> | <|x|>) \"b\"".into(), bnf: Bnf { nts: vec![vec![alt(cat(vec![t("a"), vec![tok(&[4, 14])], t("b")]))]] }, wildcard: false },
+        SpecGrammar { name: "alt4-named".into(), generated: false, lark: "start: \"a\" (<a> | <|x|> | <[7]> | <[5]>) \"b\"".into(), bnf: Bnf { nts: vec![vec![alt(cat(vec![t("a"), vec![tok(&[4, 14, 7, 5])], t("b")]))]] }, wildcard: false },
+        SpecGrammar { name: "list-then-single".into(), generated: false, lark: "start: \"a\" (<[4,7]> | <[14]>) \"b\"".into(), bnf: Bnf { nts: vec![vec![alt(cat(vec![t("a"), vec![tok(&[4, 7, 14])], t("b")]))]] }, wildcard: false },
+        SpecGrammar { name: "single-forced".into(), generated: false, lark: "start: \"ab\" <|x|> \"ab\"".into(), bnf: Bnf { nts: vec![vec![alt(cat(vec![t("ab"), vec![tok(&[14])], t("ab")]))]] }, wildcard: false },
+        SpecGrammar { name: "alt".into(), generated: false, lark: "start: <a> | \"a\" <|x|>".into(), bnf: Bnf { nts: vec![vec![alt(vec![tok(&[4])]), alt(cat(vec![t("a"), vec![tok(&[14])]]))]] }, wildcard: false },
         SpecGrammar {
-            name: "loop",
-            lark: "start: item+ \"b\"\nitem: \"a\" | <[5]>",
+            name: "loop".into(), generated: false,
+            lark: "start: item+ \"b\"\nitem: \"a\" | <[5]>".into(),
             bnf: Bnf { nts: vec![vec![alt(vec![plain(1), Sym::T(vec![b'b'])])], vec![alt(vec![plain(2)]), alt(vec![plain(1), plain(2)])], vec![alt(t("a")), alt(vec![tok(&[5])])]] },
             wildcard: false,
         },
         SpecGrammar {
-            name: "regex-then-token",
-            lark: "start: /[ab]+/ <a> /c+/",
+            name: "regex-then-token".into(), generated: false,
+            lark: "start: /[ab]+/ <a> /c+/".into(),
             bnf: Bnf {
                 nts: vec![
                     vec![alt(vec![plain(1), tok(&[4]), plain(2)])],
@@ -85,8 +87,8 @@ fn grammars() -> Vec<SpecGrammar> {
             wildcard: false,
         },
         SpecGrammar {
-            name: "text-only-any",
-            lark: "start: /[a-c<>\\[\\]3x]{0,3}/",
+            name: "text-only-any".into(), generated: false,
+            lark: "start: /[a-c<>\\[\\]3x]{0,3}/".into(),
             bnf: {
                 let cls = Sym::T(b"abc<>[]3x".to_vec());
                 Bnf { nts: vec![vec![alt(vec![]), alt(vec![cls.clone()]), alt(vec![cls.clone(), cls.clone()]), alt(vec![cls.clone(), cls.clone(), cls.clone()])]] }
@@ -96,12 +98,82 @@ fn grammars() -> Vec<SpecGrammar> {
     ]
 }
 
+
+/// token-reference expressions with the id sets they denote over the 18-token vocabulary
+/// (written out by hand: the reference does not share the engine's range parser)
+fn token_exprs() -> Vec<(&'static str, Vec<u32>)> {
+    vec![
+        ("<a>", vec![4]),
+        ("<|x|>", vec![14]),
+        ("<[7]>", vec![7]),
+        ("<[5]>", vec![5]),
+        ("<[4,7]>", vec![4, 7]),
+        ("<[2-3]>", vec![2, 3]),
+        ("<[4-7]>", vec![4, 5, 6, 7]),
+        ("<[^0-3,8-17]>", vec![4, 5, 6, 7]),
+        ("<[5,14-15]>", vec![5, 14, 15]),
+        ("<[0]>", vec![0]),
+        ("<[^0-16]>", vec![17]),
+        ("<[*]>", (0..18).collect()),
+    ]
+}
+
+/// every grammar  P X S | P X? S | P X+ S | P (X | "c")* S  with P in {"", "a", "ab"},
+/// S in {"", "b", "ab"} and X a token expression or an alternation of two
+fn generated_grammars(quick: bool) -> Vec<SpecGrammar> {
+    let plain = |n: usize| Sym::N(n, PExpr::SelfRef);
+    let ex = token_exprs();
+    let mut xs: Vec<(String, Vec<u32>)> = ex.iter().map(|(s, ids)| (s.to_string(), ids.clone())).collect();
+    for i in 0..ex.len() {
+        for j in (i + 1)..ex.len() {
+            if quick && (i + j) % 3 != 0 {
+                continue;
+            }
+            let mut ids: Vec<u32> = ex[i].1.iter().chain(ex[j].1.iter()).copied().collect();
+            ids.sort();
+            ids.dedup();
+            xs.push((format!("({} | {})", ex[i].0, ex[j].0), ids));
+        }
+    }
+    let lit = |p: &str| if p.is_empty() { String::new() } else { format!("\"{p}\"") };
+    let mut out = vec![];
+    for (xi, (xt, ids)) in xs.iter().enumerate() {
+        for p in ["", "a", "ab"] {
+            for sfx in ["", "b", "ab"] {
+                for form in 0..4 {
+                    if quick && (xi + form) % 2 == 1 && !p.is_empty() && !sfx.is_empty() {
+                        continue;
+                    }
+                    let tokx = tok(ids);
+                    let (mid, nts_extra, start_alts): (String, Vec<Vec<Alt>>, Vec<Vec<Sym>>) = match form {
+                        0 => (xt.clone(), vec![], vec![cat(vec![t(p), vec![tokx.clone()], t(sfx)])]),
+                        1 => (format!("{xt}?"), vec![], vec![cat(vec![t(p), vec![tokx.clone()], t(sfx)]), cat(vec![t(p), t(sfx)])]),
+                        2 => (format!("{xt}+"), vec![vec![alt(vec![tokx.clone()]), alt(vec![plain(1), tokx.clone()])]], vec![cat(vec![t(p), vec![plain(1)], t(sfx)])]),
+                        _ => (format!("({xt} | \"c\")*"), vec![vec![alt(vec![]), alt(vec![plain(1), tokx.clone()]), alt(vec![plain(1), Sym::T(vec![b'c'])])]], vec![cat(vec![t(p), vec![plain(1)], t(sfx)])]),
+                    };
+                    let parts: Vec<String> = [lit(p), mid, lit(sfx)].into_iter().filter(|x| !x.is_empty()).collect();
+                    let mut nts = vec![start_alts.into_iter().map(alt).collect::<Vec<_>>()];
+                    nts.extend(nts_extra);
+                    out.push(SpecGrammar { name: format!("gen-{xi}-{p}-{sfx}-{form}"), lark: format!("start: {}", parts.join(" ")), generated: true, bnf: Bnf { nts }, wildcard: ids.contains(&17) });
+                }
+            }
+        }
+    }
+    out
+}
+
+fn grammars(quick: bool) -> Vec<SpecGrammar> {
+    let mut v = hand_grammars();
+    v.extend(generated_grammars(quick));
+    v
+}
+
 fn viol(g: &SpecGrammar, vocab: &VocabSpec, check: &str, class: &str, hist: &[u32], what: serde_json::Value) -> Violation {
     Violation {
         check: check.to_string(),
         class: class.to_string(),
         signature: format!("{}|{}|{:?}|{}", check, g.name, hist, what),
-        detail: json!({"kind": "engine_history", "grammar": {"lark": g.lark}, "vocab": vocab.to_json(), "slices": "default", "history": hist,
+        detail: json!({"kind": "engine_history", "grammar": {"lark": g.lark.clone()}, "vocab": vocab.to_json(), "slices": "default", "history": hist,
             "history_bytes": hist.iter().map(|t| show(&vocab.tokens[*t as usize])).collect::<Vec<_>>(), "what": what}),
     }
 }
@@ -112,7 +184,14 @@ fn run_grammar(ctx: &Ctx, g: &SpecGrammar, vocab: &VocabSpec, depth: usize) {
     let root = match f.try_matcher(&spec) {
         Ok(m) => m,
         Err(e) => {
-            ctx.machinery_error(format!("C19 grammar {} refused: {}", g.name, e.lines().next().unwrap_or("")));
+            if g.generated {
+                ctx.count("generated_grammars_refused", 1);
+                if ctx.get_count("generated_grammars_refused") <= 3 {
+                    ctx.note(format!("refused: {} -> {}", g.lark, e.lines().next().unwrap_or("")));
+                }
+            } else {
+                ctx.machinery_error(format!("C19 grammar {} refused: {}", g.name, e.lines().next().unwrap_or("")));
+            }
             return;
         }
     };
@@ -155,7 +234,7 @@ fn run_grammar(ctx: &Ctx, g: &SpecGrammar, vocab: &VocabSpec, depth: usize) {
             ctx.count("forcing_states", 1);
             let ref_allowed: Vec<u32> = (0..nv).filter(|t| {
                 let b = trie.token(*t);
-                if *t == eos { return ear.accepting(&n.c); }
+                if *t == eos { return ear.accepting(&n.c) || ear.step_tok(&n.c, *t).is_some(); } // EOS named by a token expression is denoted
                 ear.step_tok(&n.c, *t).is_some() || (b.first() != Some(&0xFF) && !b.is_empty() && ear.run(&n.c, b).is_some())
             }).collect();
             let tok_alts = expected_toks.len();
@@ -198,6 +277,10 @@ fn run_grammar(ctx: &Ctx, g: &SpecGrammar, vocab: &VocabSpec, depth: usize) {
             // reference
             let via_tok = ear.step_tok(&n.c, t);
             let via_text = if !special && !bytes.is_empty() && t != eos { ear.run(&n.c, bytes) } else { None };
+            if via_tok.is_some() && via_text.is_some() && g.generated {
+                ctx.count("generated_grammars_ambiguous_skipped", 1);
+                return;
+            }
             if via_tok.is_some() && via_text.is_some() {
                 ctx.machinery_error(format!("C19 grammar {} is ambiguous at {:?} for token {}", g.name, n.hist, t));
                 return;
@@ -289,7 +372,8 @@ fn run_tokenization(ctx: &Ctx, vocab: &VocabSpec) {
 pub fn run(ctx: &Ctx) -> Coverage {
     let vocab = c19_vocab();
     let depth = ctx.tier.pick(6, 10);
-    let gs = grammars();
+    let gs = grammars(ctx.quick());
+    ctx.note(format!("{} token-reference grammars", gs.len()));
     gs.par_iter().for_each(|g| run_grammar(ctx, g, &vocab, depth));
     let vcanon = c19_vocab_canon();
     gs.par_iter().for_each(|g| run_grammar(ctx, g, &vcanon, depth));
@@ -346,6 +430,6 @@ pub fn run(ctx: &Ctx) -> Coverage {
         ctx.machinery_error("vacuous run: no token-reference position reached");
     }
     Coverage::StateGraph {
-        rule: format!("12 grammars mixing text with <name>, <[id]>, <[a-b]>, <[a,b]>, <[^...]>, <[*]> and 6 text-only grammars (JSON, regex, ~/&) over an 18-token vocabulary with special tokens named like grammar text, a bare marker token, a special token named [3], and ordinary tokens spelling special names; BFS over the product (real engine, reference Earley chart with token-reference terminals) to depth {depth}; in every state every token id is compared with the reference and committed/validated; plus tokenisation of spelled-out special names and marker forms"),
+        rule: format!("17 hand-written grammars plus every generated grammar P X S | P X? S | P X+ S | P (X | \"c\")* S (P in \"\", a, ab; S in \"\", b, ab; X one of 12 token expressions or an alternation of two; {} grammars in all, ambiguous members skipped) mixing text with <name>, <[id]>, <[a-b]>, <[a,b]>, <[^...]>, <[*]> and 6 text-only grammars (JSON, regex, ~/&) over an 18-token vocabulary with special tokens named like grammar text, a bare marker token, a special token named [3], and ordinary tokens spelling special names; BFS over the product (real engine, reference Earley chart with token-reference terminals) to depth {depth}; in every state every token id is compared with the reference and committed/validated; plus tokenisation of spelled-out special names and marker forms", gs.len()),
     }
 }
